@@ -8,6 +8,6 @@ python3 - <<'PY'
 import sys
 sys.path.insert(0, '.')
 from rules import facts
-i = facts.extract('ws')
+i = facts.extract("ws"); facts.extract("ext")
 print('facts ready:', len(i['files']), 'crates,', i['extract_s'], 's')
 PY
